@@ -77,7 +77,15 @@ fn build_rig(rng: &mut Rng, case_no: u64, n_frames: usize, big: bool) -> Rig {
     for _ in 0..n_frames {
         match rng.below(20) {
             0..=7 => {
-                let content = if big && rng.chance(1, 6) { format!("big {} {}", seq, "x".repeat(rng.range(60_000, 400_000) as usize)) } else { format!("message {} {}", seq, rng.below(1000)) };
+                // big: many 8-20 kB messages (the messages+runs sidecar outgrows the first tail window while
+                // that window still holds more than the message limit) and a few very large ones
+                let content = if big && rng.chance(1, 12) {
+                    format!("big {} {}", seq, "x".repeat(rng.range(60_000, 400_000) as usize))
+                } else if big && rng.chance(2, 3) {
+                    format!("mid {} {}", seq, "y".repeat(rng.range(8_000, 20_000) as usize))
+                } else {
+                    format!("message {} {}", seq, rng.below(1000))
+                };
                 let id = push(EventKind::ContinuityMessageAppended { actor_id: "user".into(), origin: "cli".into(), content }, &mut seq);
                 messages.push(id);
             }
@@ -244,7 +252,7 @@ fn cache_files(data_dir: &Path, thread: &str) -> Vec<PathBuf> {
 }
 
 fn one_case(rep: &mut Report, model: &mut Model, rng: &mut Rng, case_no: u64, big: bool, strict: bool) {
-    let n_frames = if big { rng.range(60, 160) as usize } else { rng.range(3, 70) as usize };
+    let n_frames = if big { rng.range(90, 220) as usize } else { rng.range(3, 70) as usize };
     let rig = build_rig(rng, case_no, n_frames, big);
     let mut names = Names { map: BTreeMap::new() };
     let frames = read_frames(&rig.data_dir.join("events.jsonl"));
@@ -253,6 +261,13 @@ fn one_case(rep: &mut Report, model: &mut Model, rng: &mut Rng, case_no: u64, bi
     let mut anchors: Vec<String> = vec![msgs.last().unwrap().clone(), msgs[msgs.len() / 2].clone(), msgs[0].clone()];
     if rng.chance(1, 5) {
         anchors.push("no-such-message".into());
+    }
+    // a few messages behind the head: inside the first tail window, with fewer than the limit at or
+    // before the cut but more than the limit in the window
+    for back in [rng.range(3, 10) as usize, rng.range(10, 20) as usize] {
+        if msgs.len() > back + 1 {
+            anchors.push(msgs[msgs.len() - 1 - back].clone());
+        }
     }
     anchors.dedup();
     rep.evaluations += 1;
@@ -390,7 +405,7 @@ pub fn run(opts: &Opts) -> Report {
     for case_no in 0..n {
         one_case(&mut rep, &mut model, &mut rng, case_no, false, strict);
     }
-    let nb = if opts.thorough { 40 } else { 3 } * opts.scale;
+    let nb = if opts.thorough { 60 } else { 8 } * opts.scale;
     for case_no in 0..nb {
         one_case(&mut rep, &mut model, &mut rng, 1_000_000 + case_no, true, strict);
     }
